@@ -23,6 +23,7 @@ Scope notes.
 * Computed repetition counts (`{expr}`) are constraints (C02); here only the static bounds.
 -/
 import Proofs.Fuzz
+import Proofs.IRFast
 namespace FV
 
 /-! ## 1. budgeted expansion (`Node.fuzz`) only produces derivations -/
@@ -186,6 +187,19 @@ theorem C01_fuzz_word_in_lang (G : FGrammar) (R : RegexOracle) (fuel : Nat) (sta
       exact ⟨a, r, kids, hv, hval⟩
     | term l => simp [tokOf] at htok
     | slice => simp [tokOf] at htok
+
+/-- **the checker the harness runs on every real tree decides `Valid`** (`validFast`: derivatives kept
+    in normal form so that nested repetitions over long child sequences stay cheap) -/
+theorem C01_checker_decides_valid (G : Grammar) (R : RegexOracle) (t : Tree) :
+    validFast G R t = true ↔ Valid G R t :=
+  validFast_iff G R t
+
+/-- … and agrees with the shared checker `validB` of the E2 core -/
+theorem C01_checker_agrees_with_validB (G : Grammar) (R : RegexOracle) (t : Tree) :
+    validFast G R t = validB G R t := by
+  have h1 := validFast_iff G R t
+  have h2 := validB_iff G R t
+  cases ha : validFast G R t <;> cases hb : validB G R t <;> simp_all
 
 /-! ## 5. all sequences of search operators -/
 
